@@ -19,8 +19,12 @@ import ast
 import os
 
 from .. import translate
+from . import normalize
 
 REL = "fairlearn/utils/_input_validation.py"
+
+
+PINNED = {"_merge_columns": ["_join_names", "names", "name", "row"]}
 
 
 def _const_str(node, env):
@@ -39,6 +43,8 @@ def _const_str(node, env):
             else:
                 raise translate.Untranslatable(f"{REL}: unsupported f-string part in _join_names: {ast.dump(v)[:80]}")
         return out
+    if isinstance(node, ast.BinOp) and isinstance(node.op, ast.Add):       # "\\" + SEP: concatenation of string constants
+        return _const_str(node.left, env) + _const_str(node.right, env)
     raise translate.Untranslatable(f"{REL}: unsupported string expression in _join_names: {ast.dump(node)[:80]}")
 
 
@@ -53,7 +59,8 @@ def _lean_chars(s):
 @translate.lifter
 def lift_merge(repo):
     src = translate._read(repo, REL)
-    tree = ast.parse(src)
+    # new pure temporaries inlined, locals (also those of the nested _join_names) alpha-renamed to the pinned names
+    tree = normalize.canon_tree(normalize.parse(src), PINNED, extra_funcs=("_join_names",), extra_methods=("replace", "join"))
     env = {}
     merge_fn = None
     for node in tree.body:
@@ -108,7 +115,8 @@ def lift_merge(repo):
         raise translate.Untranslatable(f"{REL}: _join_names is not a single return")
     call = body[0].value
     if not (isinstance(call, ast.Call) and isinstance(call.func, ast.Attribute) and call.func.attr == "join"
-            and len(call.args) == 1 and isinstance(call.args[0], ast.ListComp)):
+            and len(call.args) == 1 and isinstance(call.args[0], (ast.ListComp, ast.GeneratorExp)) and not call.keywords):
+        # (str.join consumes a generator exactly as it consumes the list of the same elements)
         raise translate.Untranslatable(f"{REL}: _join_names is not <sep>.join([...])")
     joiner = _const_str(call.func.value, env)
     if joiner != sep:
